@@ -557,6 +557,55 @@ def foreign_file_loads():
     return n, vs[:8]
 
 
+def embedded_project_handover():
+    """An embedded project handed from one MetaModule to another: M1 embeds p, M1 is given q instead, M2 embeds p (also:
+    M2 embeds p first / M1 is built with q directly).  Editing a module of p afterwards is M2's business: M1 -- its
+    controller values and its saved bytes -- stays as it is, and so does the module inside q."""
+    import rv.api as rv
+
+    vs, n = [], 0
+    for order in ("direct", "reassigned", "reassigned-after-m2"):
+        for mapped in (False, "index", "number"):
+            n += 1
+            case = {"handover": [order, mapped]}
+            p, q = rv.Project(), rv.Project()
+            amp_p, amp_q = p.new_module(rv.m.Amplifier), q.new_module(rv.m.Amplifier)
+            try:
+                if order == "direct":
+                    m1 = rv.m.MetaModule(project=q)
+                    m2 = rv.m.MetaModule(project=p)
+                elif order == "reassigned":
+                    m1 = rv.m.MetaModule(project=p)
+                    m1.project = q
+                    m2 = rv.m.MetaModule(project=p)
+                else:
+                    m1 = rv.m.MetaModule(project=q)
+                    m2 = rv.m.MetaModule(project=p)
+                    m3 = rv.m.MetaModule(project=rv.Project())
+                    m3.project = rv.Project()
+                if mapped:
+                    for mm, tgt in ((m1, amp_q), (m2, amp_p)):
+                        mm.user_defined_controllers = 1
+                        mp = mm.mappings.values[0]
+                        # the mapped controller named by its position (0) or by its controller number (1): both occur
+                        mp.module, mp.controller = tgt.index, (0 if mapped == "index" else tgt.controllers["volume"].number)
+                        if mapped == "index":
+                            mm.update_user_defined_controllers()
+                before = observe_module(m1)
+                q_before = amp_q.volume
+                amp_p.volume = 100
+                amp_p.balance = -7
+                after = observe_module(m1)
+            except Exception as e:
+                vs.append(C.viol("container-op-raises", {"order": order, "exc": type(e).__name__}, {"error": repr(e)[:200]}, case))
+                continue
+            d = S.diff(before[0], after[0])
+            if d or before[1] != after[1] or amp_q.volume != q_before:
+                vs.append(C.viol("other-object-changed", {"origin": "metamodule-that-gave-the-project-away", "order": order,
+                                                          "what": C.first_diff_key(d) or "bytes"}, {"diff": S.diff_text(d)}, case))
+    return n, vs
+
+
 # ----------------------------------------------------------------------------- containers
 def container_histories():
     return [
@@ -706,6 +755,8 @@ def run_case(case):
         return [v for v in legacy_side_objects()[1] if v["case"] == case]
     if "failed_ctor" in case:
         return [v for v in failed_constructors()[1] if v["case"] == case]
+    if "handover" in case:
+        return [v for v in embedded_project_handover()[1] if v["case"] == case]
     if "container" in case:
         return check_container(case["container"])
     return check_history(case["type"], case["history"])[0]
@@ -725,6 +776,13 @@ def _task(t):
         r["evals"] = n
         r["violations"] = vs
         r["sample"] = {"legacy_side": "signature-altered"}
+        return r
+    if t[0] == "handover":
+        r = C.new_result()
+        n, vs = embedded_project_handover()
+        r["evals"] = n
+        r["violations"] = vs
+        r["sample"] = {"handover": ["reassigned", True]}
         return r
     if t[0] == "failed_ctors":
         r = C.new_result()
@@ -764,7 +822,7 @@ def run(ctx):
     treeenv.setup()
     for k in deviate.type_keys():
         pristine(k)  # computed in the parent BEFORE the pool forks and before any mutation
-    tasks = [("containers",), ("failed_ctors",), ("legacy_side",), ("foreign_loads",)]
+    tasks = [("containers",), ("failed_ctors",), ("legacy_side",), ("foreign_loads",), ("handover",)]
     total = 0
     for k in deviate.type_keys():
         devs = deviate.module_devs(k, ctx.seed, spikes="few", opt8="few")
